@@ -1,9 +1,11 @@
 package stagex
 
 import (
+	"bytes"
 	"fmt"
 	"os"
 	"path/filepath"
+	"runtime/pprof"
 	"sort"
 	"strings"
 	"testing"
@@ -660,8 +662,8 @@ func TestC16Sim(t *testing.T) {
 			t.Class("immediate")
 		}
 		if !s.StopSender(graceful, bound) {
-			s.viol("C16", "stop-does-not-terminate", "%s stop requested at %s; Start had not returned after %v of simulated time (requests served without faults meanwhile); pending requests: %d",
-				map[bool]string{true: "graceful", false: "immediate"}[graceful], s.clock(), bound, len(s.pendingNow()))
+			s.viol("C16", "stop-does-not-terminate", "%s stop requested at %s; Start had not returned after %v of simulated time (requests served without faults meanwhile); pending requests: %d; sender goroutines: %s",
+				map[bool]string{true: "graceful", false: "immediate"}[graceful], s.clock(), bound, len(s.pendingNow()), brokerStacks())
 			return
 		}
 		s.observe()
@@ -703,4 +705,34 @@ func TestC16Sim(t *testing.T) {
 			}
 		}
 	})
+}
+
+// brokerStacks summarises where the sender's goroutines are (diagnostics).
+func brokerStacks() string {
+	var buf bytes.Buffer
+	pprof.Lookup("goroutine").WriteTo(&buf, 1)
+	var out []string
+	for _, blk := range strings.Split(buf.String(), "\n\n") {
+		if !strings.Contains(blk, "client.(*Broker)") {
+			continue
+		}
+		var fn []string
+		for _, ln := range strings.Split(blk, "\n") {
+			if i := strings.Index(ln, "client.(*Broker)."); i >= 0 {
+				f := ln[i+len("client.(*Broker)."):]
+				if j := strings.IndexAny(f, "+ \t"); j > 0 {
+					f = f[:j]
+				}
+				fn = append(fn, f)
+			}
+		}
+		if len(fn) > 0 {
+			out = append(out, strings.Join(fn, "<"))
+			if os.Getenv("VT_VERBOSE") != "" {
+				println(blk)
+			}
+		}
+	}
+	sort.Strings(out)
+	return strings.Join(out, " | ")
 }
